@@ -15,6 +15,7 @@ import (
 	"fmt"
 	"github.com/oasisprotocol/curve25519-voi/zzverif/corpus"
 	"github.com/oasisprotocol/curve25519-voi/zzverif/ref"
+	"golang.org/x/crypto/sha3"
 	"math/big"
 	"math/rand/v2"
 	"os"
@@ -156,6 +157,8 @@ func buildTasks(rng *rand.Rand, shared *cache.Verifier) []task {
 			return append(b, bb(skp.PublicKey().Verify(st, s))...)
 		}},
 		task{name: "sr25519.Verify(shared signature)", run: func() []byte { return bb(skp.PublicKey().Verify(sctx.NewTranscriptBytes(msg), srSig)) }},
+		task{name: "sr25519.NewTranscriptHash+Sign+Verify(shared context, own message)", run: nil},
+		task{name: "sr25519.NewTranscriptXOF+Sign+Verify(shared context, own message)", run: nil},
 		task{name: "sr25519.Batch", run: func() []byte {
 			bv := sr25519.NewBatchVerifier()
 			for j := 0; j < 3; j++ {
@@ -219,6 +222,39 @@ func buildTasks(rng *rand.Rand, shared *cache.Verifier) []task {
 			return append(b, bb(p.IsSmallOrder())...)
 		}})
 	}
+	// transcripts over the SHARED signing context from per-task messages: hash and XOF sources
+	var extra []task
+	for i := range ts {
+		if ts[i].run != nil {
+			continue
+		}
+		isXOF := strings.Contains(ts[i].name, "XOF")
+		for v := 0; v < 6; v++ {
+			m := append(mon.Bytes(rng, 40), byte(v))
+			extra = append(extra, task{name: ts[i].name, run: func() []byte {
+				var st *sr25519.SigningTranscript
+				if isXOF {
+					x := sha3.NewShake256()
+					x.Write(m)
+					st = sctx.NewTranscriptXOF(x)
+				} else {
+					h := sha512.New()
+					h.Write(m)
+					st = sctx.NewTranscriptHash(h)
+				}
+				s, _ := skp.Sign(zeroes{}, st)
+				b, _ := s.MarshalBinary()
+				return append(b, bb(skp.PublicKey().Verify(st, s))...)
+			}})
+		}
+	}
+	kept := ts[:0]
+	for _, t := range ts {
+		if t.run != nil {
+			kept = append(kept, t)
+		}
+	}
+	ts = append(kept, extra...)
 	for i := range ts {
 		ts[i].want = ts[i].run() // sequential reference
 	}
@@ -702,6 +738,19 @@ func coldStart(r *mon.Run) {
 				return res{"VerifyExpanded", nil}
 			}
 			return res{"VerifyExpanded", bb(ed25519.VerifyExpanded(x, msg, ssig))}
+		},
+		func() res {
+			x, err := ed25519.NewExpandedPublicKey(ed25519.PublicKey(spub))
+			if err != nil {
+				return res{"VerifyExpandedWithOptions(StdLib)", nil}
+			}
+			return res{"VerifyExpandedWithOptions(StdLib)", bb(ed25519.VerifyExpandedWithOptions(x, msg, ssig, &ed25519.Options{Verify: ed25519.VerifyOptionsStdLib}))}
+		},
+		func() res {
+			s, _ := scalar.NewFromBytesModOrderWide(msg)
+			x := curve.NewExpandedEdwardsPoint(curve.ED25519_BASEPOINT_POINT)
+			b, _ := curve.NewEdwardsPoint().ExpandedDoubleScalarMulBasepointVartime(s, x, s).MarshalBinary()
+			return res{"ExpandedDoubleScalarMulBasepointVartime", b}
 		},
 		func() res { return res{"Sign", ed25519.Sign(ed25519.PrivateKey(spriv), msg)} },
 		func() res { return res{"NewKeyFromSeed", ed25519.NewKeyFromSeed(seed)} },
